@@ -95,6 +95,32 @@ def _in_quote(d):
     return False
 
 
+def quote_glued(d):
+    """does a quoted scalar open right behind a byte that is not a separator for the TOKEN reader (`]"q k"`, minimal layout
+    behind a parameter block)?  The token reader knows no parameter syntax: it reads `]"q` as one bare word with a quote in
+    it (same class as C09's `x"y`), on the complete document and on every prefix alike, so the token-list half of the oracle
+    still holds, but the byte scan `_in_quote` of props/C19_lex.py (which says where an error is REQUIRED) assumes that a
+    quote opens a string wherever it stands.  Such documents are left out of the token-reader stream (counted), they stay in
+    the tape and view streams."""
+    ok_before = set(b" \t\r\n={}<>;\"")
+    i, n = (3 if d.startswith(b"\xef\xbb\xbf") else 0), len(d)
+    while i < n:
+        c = d[i]
+        if c == 0x23:
+            while i < n and d[i] != 0x0a:
+                i += 1
+        elif c == 0x22:
+            if i > 0 and not (i == 3 and d.startswith(b"\xef\xbb\xbf")) and d[i - 1] not in ok_before:
+                return True
+            i += 1
+            while i < n and d[i] != 0x22:
+                i += 2 if d[i] == 0x5c else 1
+            i += 1
+        else:
+            i += 1
+    return False
+
+
 def _split(o):
     p = o.split(" ")
     if len(p) < 2 or not p[-1].startswith("@"):
@@ -104,17 +130,30 @@ def _split(o):
 
 def run_text(ctx):
     rng = ctx.rng
-    cases, meta = [], []
+    datas = []
     for _ in range(ctx.scale(50, 600)):
         doc = td.gen_doc(rng, depth=rng.choice([1, 2, 3]))
         d = td.render(doc, rng, rng.choice(td.STYLES), bom=rng.random() < 0.1)
         if len(d) > 130:
             continue
+        datas.append(d)
+    judge_text(ctx, "text_token_truncations", datas, "text_token_truncation_cases")
+
+
+def judge_text(ctx, stream, datas, counter):
+    """every prefix of every byte string of `datas` through the slice and the streaming token reader (a_c19: split out of
+    run_text so that props/C19_view.py can feed the directed documents -- ending in a comment, `@[..]`, a parameter block,
+    an rgb header, behind a BOM -- through the same oracle)"""
+    rng = ctx.rng
+    cases, meta = [], []
+    for d in datas:
+        if quote_glued(d):
+            ctx.count(counter + "_skipped_glued_quote"); continue
         for k in range(len(d) + 1):
             h = hexs(d[:k])
             for c in ("tr.slice\t%s" % h, "tr.stream\t%d\t%s\t%s" % (rng.choice([160, 300]), rng.choice(["-", ",".join(["1"] * min(k, 200)) or "-", "5,1,3,9,2"]), h)):
                 cases.append(c); meta.append((d, k))
-    impl, _ = ctx.correspond("text_token_truncations", cases, nontrivial=lambda c, i: " END @" in i)
+    impl, _ = ctx.correspond(stream, cases, nontrivial=lambda c, i: " END @" in i)
     base = len(impl) - len(cases)
     full = {}
     for j, (d, k) in enumerate(meta):
@@ -150,7 +189,7 @@ def run_text(ctx):
                 bad = "token %d is %s, the complete document has %s" % (i, t, T[i]); break
         if bad:
             ctx.fail("text-lex-trunc-fabricated", "%s on %r cut at %d: %s (%s)" % (kind, d, k, bad, o[:160]), [cases[j]], [o], " ".join(T)[:200])
-    ctx.count("text_token_truncation_cases", len(cases))
+    ctx.count(counter, len(cases))
 
 
 def run_part(ctx):
